@@ -284,9 +284,17 @@ func checkC12(t core.TB, rec *core.Recorder, env *gen.Env, all *core.Set, ec *ex
 					continue
 				}
 			case "dupSubExpr":
-				e := exprAt(p, f, pos)
-				be, ok := e.(*ast.BinaryExpr)
-				if !ok {
+				// the binary expression at pos whose operands are textually identical (an outer
+				// `x <= x && y` starts at the same position)
+				var be *ast.BinaryExpr
+				at, _ := nodesAt(f, pos)
+				for _, n := range at {
+					if b, ok := n.(*ast.BinaryExpr); ok && srcText(p, 0, b.X) == srcText(p, 0, b.Y) && strings.Contains(d.Text, "`"+b.Op.String()+"`") {
+						be = b
+					}
+				}
+				if be == nil {
+					rec.Count("claim-not-located:" + name)
 					continue
 				}
 				c.what, c.class = "both operands are the same value", isPure(p, be)
